@@ -51,7 +51,12 @@ func init() {
 		nops := fs.Int("ops", 40, "operations per round")
 		burst := fs.Int("burst", 500, "schema events emitted back to back at the end of every round")
 		_ = fs.Parse(args)
-		type stT struct{ Rounds, Emits, Schema, Registers, Closes, Failovers, Events int }
+		type stT struct {
+			Rounds, Emits, Schema, Registers, Closes, Failovers, Events int
+			// control connections that completed their handshake but never sent REGISTER (the backend can then send no event
+			// at all): one entry per occurrence, "round <n> auth=<personality> after <what>"
+			Unregistered []string
+		}
 		st := &stT{}
 		first := true
 		typeSets := [][]primitive.EventType{
@@ -72,6 +77,20 @@ func init() {
 			if err != nil {
 				return err
 			}
+			// the proxy's control connection must have registered for events, however its handshake went
+			registered := func(after string) {
+				deadline := time.Now().Add(4 * time.Second)
+				for time.Now().Before(deadline) {
+					if e.C.ControlConn() != nil {
+						return
+					}
+					time.Sleep(20 * time.Millisecond)
+				}
+				if e.P.OutageDuration() == 0 {
+					st.Unregistered = append(st.Unregistered, fmt.Sprintf("round %d auth=%q after %s", r, auth, after))
+				}
+			}
+			registered("start-up")
 			t.Emit("ScenarioStart")
 			var clients []*evClient
 			settle := func() {
@@ -155,6 +174,7 @@ func init() {
 							e.C.SetNodeMaxVersion(ip, 0)
 						}
 						st.Failovers++
+						registered("fail-over")
 					}
 				default: // backend event
 					nev++
